@@ -13,7 +13,7 @@ QHEADER = ("From Coq Require Import List Bool Arith NArith.\nFrom QV Require Imp
            "Definition mg_eqb (g h : mg) : bool := match g, h with\n"
            " | MGX a, MGX b => Nat.eqb a b | MGCX a b, MGCX c d => Nat.eqb a c && Nat.eqb b d\n"
            " | MGU i cs t, MGU j ds u => Nat.eqb i j && list_eqb Nat.eqb cs ds && Nat.eqb t u | _, _ => false end.\n")
-RULE = ("contract monitors: on every call of unitary._compute_gates and scipy.linalg.cossin made while synthesising structured "
+RULE = ("QR scheme: every block of the circuits built for dense unitaries (n = 2..4/5) must equal TwoLevel.qr_block n col row inside Coq (and blockg with a path accepted by path_ok), the whole gate list must equal qr_circuit for n <= 3, every Givens sequence must satisfy the premises of C02_qr_telescoping (1e-12 / 1e-10) and the product of the two-level matrices must equal the input (1e-7); contract monitors: on every call of unitary._compute_gates and scipy.linalg.cossin made while synthesising structured "
         "(identity, diagonal, permutation, tensor, block-diagonal, real orthogonal, Hadamard, -I) and Haar unitaries, n = 2..4/5, "
         "the premises of the demultiplexing theorem (V unitary, |d| = 1, U1 U2^dagger = V D^2 V^dagger, W = D V^dagger U2) and the "
         "cosine-sine factorisation are checked numerically at 1e-8; direct evaluation (harness/props/c02_eval.py): operator vs matrix "
